@@ -2494,6 +2494,11 @@ impl M2Model {
         let mut collision_mesh_data = None;
         let mut physics_file_data = None;
 
+        // Length of the stream, to validate the chunk sizes against
+        let start_pos = reader.stream_position()?;
+        let stream_len = reader.seek(SeekFrom::End(0))?;
+        reader.seek(SeekFrom::Start(start_pos))?;
+
         // Read all chunks
         loop {
             let header = match ChunkHeader::read(reader) {
@@ -2501,6 +2506,17 @@ impl M2Model {
                 Err(M2Error::Io(ref e)) if e.kind() == ErrorKind::UnexpectedEof => break,
                 Err(e) => return Err(e),
             };
+
+            // A chunk cannot be larger than what is left of the file
+            let remaining = stream_len.saturating_sub(reader.stream_position()?);
+            if header.size as u64 > remaining {
+                return Err(M2Error::ParseError(format!(
+                    "Chunk {} claims {} bytes but only {} bytes remain in the file",
+                    header.magic_str(),
+                    header.size,
+                    remaining
+                )));
+            }
 
             chunks.push(header.clone());
 
